@@ -9,6 +9,7 @@ from ..astutil import Origins, call_name, const_num, names_in
 from ..cfg import Conditions, Flow, ReachingDefs
 from ..loader import ClassInfo, FuncInfo, Program, dotted, enclosing_stmt, parent, short, walk_own
 from ..report import BAD, INFO, OK, UNDET, Instance
+from .guards import conds_at
 
 LIMIT_PROPS = ("min_write_sz", "max_write_sz", "min_part", "max_part")
 
@@ -954,6 +955,27 @@ def rule_flow16(prog: Program) -> List[Instance]:
     ccs = prog.func("cog._shared:compute_cog_spec")
     ok = any(isinstance(n, ast.Call) and "adjust_blocksize" in short(n) and call_name(n) in ("map", "shape_") for n in walk_own(ccs.node))
     out.append(Instance("R-FLOW16", f"{ccs.qual}#tile-adjust", OK if ok else BAD, "tile shape mapped through adjust_blocksize" if ok else "compute_cog_spec no longer adjusts the tile shape", ccs.where()))
+    # both axes are padded to a multiple of 2**levels with the *shared* level count: the alignment handed
+    # to align_up may depend on the per-axis counts only through the count that is returned
+    org = Origins(ccs)
+    per_axis: Set[str] = set()
+    for n in walk_own(ccs.node):
+        if isinstance(n, ast.Assign) and any(isinstance(x, ast.Call) and call_name(x) == "num_overviews" for x in ast.walk(n.value)):
+            per_axis |= {t.id for t in ast.walk(n.targets[0]) if isinstance(t, ast.Name)}
+    shared = None
+    for n in walk_own(ccs.node):
+        if isinstance(n, ast.Return) and isinstance(n.value, ast.Tuple) and isinstance(n.value.elts[-1], ast.Name):
+            shared = n.value.elts[-1].id
+    aligns = [n for n in ast.walk(ccs.node) if isinstance(n, ast.Call) and call_name(n) == "align_up" and len(n.args) >= 2]
+    if shared is None or not aligns or len(per_axis) < 2 or shared in per_axis:
+        out.append(Instance("R-FLOW16", f"{ccs.qual}#pad-shared-levels", INFO, "padding idiom (align_up(d, pad) with pad from the returned level count) not recognised", ccs.where(), nontrivial=False))
+    for a in aligns if (shared is not None and len(per_axis) >= 2 and shared not in per_axis) else []:
+        direct = org.deps_names(a.args[1], {shared}) & per_axis
+        via = shared in org.deps_names(a.args[1])
+        okp = via and not direct
+        out.append(Instance("R-FLOW16", f"{ccs.qual}#pad-shared-levels:{short(a, 30)}", OK if okp else BAD,
+                            f"padding alignment `{short(a.args[1])}` depends on the level counts only through the returned count `{shared}`" if okp else
+                            f"padding alignment `{short(a.args[1])}` depends on a per-axis level count {sorted(direct)} directly: an axis is no longer padded to a multiple of 2**{shared} and its overviews are not exact halves", ccs.where(a)))
     return out
 
 
@@ -994,6 +1016,8 @@ def rule_order(prog: Program) -> List[Instance]:
             out.append(Instance("R-ORDER", cid, OK, f"`{short(a)}` is the reversed level list: overview tiles precede full-resolution tiles", sc.where(n)))
         elif tag == "ASC":
             out.append(Instance("R-ORDER", cid, BAD, f"`{short(a)}` is in level order (full resolution first): overview data would follow the main image data", sc.where(n)))
+        elif tag == "RESORTED":
+            out.append(Instance("R-ORDER", cid, BAD, f"the list behind `{short(a)}` is re-ordered in place (sort/reverse/insert/shuffle) after the level reversal: the stream order now depends on a run-time key, overview tiles are no longer guaranteed to precede full-resolution tiles", sc.where(n)))
         else:
             out.append(Instance("R-ORDER", cid, UNDET, f"cannot determine the order of `{short(a)}`", sc.where(n)))
     # CogMeta.cog_tidx enumerates layers reversed too
@@ -1010,6 +1034,8 @@ def _order_tag(e: ast.AST, fi: FuncInfo, rd: ReachingDefs, at: Optional[ast.stmt
     if isinstance(e, ast.Subscript) and isinstance(e.slice, ast.Slice):
         step = const_num(e.slice.step) if e.slice.step is not None else None
         base = _order_tag(e.value, fi, rd, at, depth + 1)
+        if base == "RESORTED":
+            return base
         if step == -1 and e.slice.lower is None and e.slice.upper is None:
             return {"ASC": "DESC", "DESC": "ASC"}.get(base, "?")
         if step is None:
@@ -1028,10 +1054,23 @@ def _order_tag(e: ast.AST, fi: FuncInfo, rd: ReachingDefs, at: Optional[ast.stmt
             else:
                 tags.add(_order_tag(x, fi, rd, at, depth + 1))
         tags.discard("ELEM")
+        if "RESORTED" in tags:
+            return "RESORTED"
         return tags.pop() if len(tags) == 1 else "?"
     if isinstance(e, ast.Name):
         defs = rd.reaching(at, e.id) if at is not None else []
         tags = set()
+        # in-place reordering of the list between its definition and the hand-off
+        flips = 0
+        for n in walk_own(fi.node):
+            if isinstance(n, ast.Call) and isinstance(n.func, ast.Attribute) and isinstance(n.func.value, ast.Name) and n.func.value.id == e.id and n.func.attr in ("sort", "insert"):
+                return "RESORTED"
+            if isinstance(n, ast.Call) and isinstance(n.func, ast.Attribute) and isinstance(n.func.value, ast.Name) and n.func.value.id == e.id and n.func.attr == "reverse":
+                if not isinstance(parent(n), ast.Expr) or parent(parent(n)) is not fi.node:
+                    return "?"  # conditional in-place reversal: not modelled
+                flips += 1
+            if isinstance(n, ast.Call) and call_name(n) == "shuffle" and n.args and isinstance(n.args[0], ast.Name) and n.args[0].id == e.id:
+                return "RESORTED"
         for name, st, val, kind in defs:
             if kind == "assign" and val is not None:
                 if isinstance(val, ast.List) and not val.elts:
@@ -1043,7 +1082,12 @@ def _order_tag(e: ast.AST, fi: FuncInfo, rd: ReachingDefs, at: Optional[ast.stmt
                 tags.add("?")
             else:
                 tags.add("?")
-        return tags.pop() if len(tags) == 1 else "?"
+        if "RESORTED" in tags:
+            return "RESORTED"
+        t = tags.pop() if len(tags) == 1 else "?"
+        if flips % 2:
+            t = {"ASC": "DESC", "DESC": "ASC"}.get(t, t)
+        return t
     return "?"
 
 
@@ -1114,4 +1158,42 @@ def rule_filesink(prog: Program) -> List[Instance]:
         part_p = [x for x in pp if x != "self"][0]
         ok = "PartNumber" in d and short(d["PartNumber"]) == part_p and "Path" in d and bool(opened) and names_in(opened[0]) <= names_in(d["Path"])
     out.append(Instance("R-MPU", f"{c.qual}#SINK:receipt", OK if ok else BAD, "receipt carries the part number and the path that was written" if ok else "receipt does not name the part number / the file that was written", c.where()))
+    return out
+
+
+def rule_rechunk(prog: Program) -> List[Instance]:
+    """C05: a tile is compressed from exactly one source chunk, so the source must have the chunking
+    the layout prescribes. Each `data = data.rechunk(T)` is either unconditional or skipped only when
+    the *whole* chunk shape already equals the same T; a weaker test (some axes only, another target)
+    lets a differently chunked source through and tiles are cut from partial chunks."""
+    out: List[Instance] = []
+    n_sites = 0
+    for fi in prog.all_functions({"cog._tifffile"}):
+        cond = None
+        for n in walk_own(fi.node):
+            if not (isinstance(n, ast.Call) and call_name(n) == "rechunk" and isinstance(n.func, ast.Attribute) and n.args):
+                continue
+            n_sites += 1
+            recv, target = n.func.value, n.args[0]
+            if cond is None:
+                cond = Conditions(fi.body)
+            st = enclosing_stmt(n)
+            guards = [(e, p) for e, p in conds_at(cond, st) if short(recv) in {short(x) for x in ast.walk(e) if isinstance(x, (ast.Name, ast.Attribute))}]
+            cid = f"{fi.qual}#rechunk-guard:{short(target, 30)}"
+            if not guards:
+                out.append(Instance("R-GUARDSEQ", cid, OK, f"`{short(n, 50)}` is not skipped on account of the current chunking", fi.where(n)))
+                continue
+            ok = False
+            for e, p in guards:
+                if isinstance(e, ast.Compare) and len(e.ops) == 1 and ((isinstance(e.ops[0], ast.NotEq) and p) or (isinstance(e.ops[0], ast.Eq) and not p)):
+                    sides = [e.left, e.comparators[0]]
+                    whole = [s_ for s_ in sides if isinstance(s_, ast.Attribute) and s_.attr in ("chunksize", "chunks") and short(s_.value) == short(recv)]
+                    other = [s_ for s_ in sides if s_ not in whole]
+                    if len(whole) == 1 and len(other) == 1 and short(other[0], 200) == short(target, 200):
+                        ok = True
+            out.append(Instance("R-GUARDSEQ", cid, OK if ok else BAD,
+                                f"rechunk to `{short(target, 40)}` skipped only when the whole chunk shape already equals it" if ok else
+                                f"`{short(n, 50)}` is skipped under `{short(guards[0][0], 60)}`, which is not `<whole chunk shape> != {short(target, 30)}`: a source whose chunking differs on an untested axis is not rechunked and tiles are built from partial chunks", fi.where(n)))
+    if n_sites == 0:
+        out.append(Instance("R-GUARDSEQ", "cog._tifffile#rechunk-guard", INFO, "no rechunk call found", "", nontrivial=False))
     return out
